@@ -755,6 +755,109 @@ impl Alphabet {
     }
 }
 
+/// Scripted long histories over 4 labels (60-150 updates, every supported query after every update):
+/// a finite family run on every solver configuration. They reach what the depth-bounded exploration
+/// cannot: dozens of retired selectors, ids far beyond the number of live arguments, every attack
+/// toggled on and off, the same label removed and re-added a dozen times.
+pub fn long_scripts(kind: DynKind) -> Vec<(String, Vec<Op>)> {
+    struct B {
+        ops: Vec<Op>,
+        s: RefState,
+        kind: DynKind,
+    }
+    impl B {
+        fn up(&mut self, op: Op) {
+            assert_eq!(self.s.classify(&op), OpClass::Valid, "harness: script step {:?} is not a valid update", op);
+            self.s.apply(&op);
+            self.ops.push(op);
+            for a in 0..4u8 {
+                if !self.s.has_arg(a) {
+                    continue;
+                }
+                for skeptical in [false, true] {
+                    let supported = if skeptical { self.kind.ds_sem().is_some() } else { self.kind.dc_sem().is_some() };
+                    if supported {
+                        self.ops.push(Op::Query { skeptical, arg: a, cert: true });
+                    }
+                }
+            }
+        }
+        fn new(kind: DynKind) -> B {
+            B { ops: vec![], s: RefState::new(), kind }
+        }
+    }
+    let mut out = vec![];
+    // every attack switched on (row order), then off (stride order)
+    let mut b = B::new(kind);
+    for a in 0..4 {
+        b.up(Op::NewArg(a));
+    }
+    for k in 0..16u8 {
+        b.up(Op::NewAtt(k / 4, k % 4));
+    }
+    for k in 0..16u8 {
+        let j = (k * 5 + 3) % 16;
+        b.up(Op::RemAtt(j / 4, j % 4));
+    }
+    out.push(("toggle_all".to_string(), b.ops));
+    // the same label removed and re-added, ring attacks restored, a self-attack on odd rounds
+    let mut b = B::new(kind);
+    for a in 0..4 {
+        b.up(Op::NewArg(a));
+    }
+    for a in 0..4u8 {
+        b.up(Op::NewAtt(a, (a + 1) % 4));
+    }
+    for r in 0..12u8 {
+        let a = r % 4;
+        b.up(Op::RemArg(a));
+        b.up(Op::NewArg(a));
+        b.up(Op::NewAtt(a, (a + 1) % 4));
+        b.up(Op::NewAtt((a + 3) % 4, a));
+        if r % 2 == 1 {
+            b.up(Op::NewAtt(a, a));
+        }
+    }
+    out.push(("churn".to_string(), b.ops));
+    // grow and shrink: arguments added one by one attacking all earlier ones (and back on even cycles)
+    let mut b = B::new(kind);
+    for cycle in 0..4u8 {
+        for a in 0..4u8 {
+            b.up(Op::NewArg(a));
+            for e in 0..a {
+                b.up(Op::NewAtt(a, e));
+                if cycle % 2 == 0 {
+                    b.up(Op::NewAtt(e, a));
+                }
+            }
+        }
+        for k in 0..4u8 {
+            let a = if cycle % 2 == 0 { 3 - k } else { (k + cycle) % 4 };
+            b.up(Op::RemArg(a));
+        }
+    }
+    out.push(("grow_shrink".to_string(), b.ops));
+    // direction flips between every pair, three rounds, on top of a 4-ring
+    let mut b = B::new(kind);
+    for a in 0..4 {
+        b.up(Op::NewArg(a));
+    }
+    for _round in 0..3 {
+        for a in 0..4u8 {
+            for c in a + 1..4 {
+                b.up(Op::NewAtt(a, c));
+                b.up(Op::RemAtt(a, c));
+                b.up(Op::NewAtt(c, a));
+                b.up(Op::NewAtt(a, c));
+                b.up(Op::RemAtt(c, a));
+                b.up(Op::RemAtt(a, c));
+            }
+        }
+    }
+    out.push(("flip".to_string(), b.ops));
+    out
+}
+
 /// canonical construction history of a graph over label indices (optionally with a remove/re-add
 /// cycle first so that ids are sparse and selectors retired)
 pub fn construction_history(g: &Graph, sparse: bool) -> Vec<Op> {
